@@ -244,7 +244,12 @@ impl RttEstimator {
         if let Some((sent_timestamp, sent_seq)) = self.timestamp
             && seq >= sent_seq
         {
-            self.sample((timestamp - sent_timestamp).total_millis() as u32);
+            // A sample longer than the maximum RTO cannot change the RTO any further; clamping
+            // it keeps the estimator arithmetic within u32 however late the ACK arrives.
+            let rtt = (timestamp - sent_timestamp)
+                .total_millis()
+                .min(RTTE_MAX_RTO as u64);
+            self.sample(rtt as u32);
             self.timestamp = None;
         }
     }
